@@ -182,6 +182,7 @@ class RegionLifter:
         self.prog, self.rg = prog, region
         self.max_product = max_product
         self.decisions = []              # (id of the ast.If, branch taken) in execution order
+        self.hazards = []                # (function, node, why): numerically fragile constructs met
         self.steps, self.max_steps = 0, max_steps
         self.depth = 0
 
@@ -760,8 +761,18 @@ class RegionLifter:
         if name == "np.sign":
             return self.ew(lambda x: const(self.rg.sign(R(x))), args[0])
         if name in ("np.sqrt", "math.sqrt"):
+            argn = node.args[0] if node.args else None
+            clipped = isinstance(argn, ast.Call) and ast.unparse(argn.func) in ("max", "np.maximum", "abs", "np.abs")
+
             def sq(x):
+                x0 = x
                 x = R(x)
+                if x.is_zero() and not clipped and isinstance(x0, RF) and not isinstance(argn, ast.Constant) \
+                        and any(isinstance(k, ast.BinOp) and isinstance(k.op, ast.Sub) for k in ast.walk(argn)):
+                    # a radicand that cancels identically: in floating point its sign is a
+                    # rounding error, the square root is NaN one time out of two
+                    self.hazards.append((F, node, "radicand cancels to exactly 0 on this region: the "
+                                         "floating-point value can be slightly negative and the root NaN"))
                 if not x.is_zero() and self.rg.sign(x) < 0:
                     raise Unsupported("sqrt of a negative term on this region")
                 return self.sqrt(x)
